@@ -65,7 +65,9 @@ SbPlayId(k, p) ==
 (* layouts with two value sets                                             *)
 KeepAliveFields(p, vs) ==
   IF p >= 340 THEN << F("keep_alive_id", <<"Long">>, IF vs = 1 THEN [s |-> 1, m |-> <<128, 0, 0, 0, 0, 0, 0, 0>>] ELSE I(123456789)) >>
-  ELSE << F("keep_alive_id", <<"VarInt">>, IF vs = 1 THEN V7(2147483647) ELSE V7(300)) >>
+  ELSE << F("keep_alive_id", <<"VarInt">>, IF vs = 1 THEN V7(2147483647)
+                                             ELSE IF vs = 2 THEN <<127, 127, 127, 127, 15>>      \* -1 as servers of that era send it (ff ff ff ff 0f)
+                                             ELSE V7(300)) >>
 
 PosLookCbFields(p, vs) ==
   << F("x", <<"Double">>, Dbl(0, 3, <<1, 0, 1>>)), F("y", <<"Double">>, Dbl(0, 6, <<>>)), F("z", <<"Double">>, Dbl(1, 1, <<1>>)),
